@@ -75,13 +75,12 @@ Lemma add_task_locks : forall s, olock (add_task s) = olock s /\ rlock (add_task
 Proof. intros. unfold add_task. simpl. destruct (qwait s); simpl; auto. Qed.
 
 Lemma inv1_step_io : forall c s ch s' l,
-  Inv1 s -> step_io c s ch = Some (s', l) -> taint s' = false -> Inv1 s'.
+  Inv1 s -> step_io c s ch = Some (s', l) -> Inv1 s'.
 Proof.
-  intros c s ch s' l [Ho Hr Hw He] H Ht. unfold step_io in H. step_cases H; free_hyps.
+  intros c s ch s' l [Ho Hr Hw He] H. unfold step_io in H. step_cases H; free_hyps.
   all: unfold after_read, turn_start, hc_return, goio in *.
   all: repeat match goal with |- context [if ?b then _ else _] => destruct b eqn:? end.
   all: cbv [io_holds_o io_holds_r hc_locked hc_is_sc] in Ho, Hr.
-  all: simpl in Ht; try discriminate Ht.
   all: try match goal with |- context [add_task ?x] =>
          let Ea := fresh in let Eb := fresh in let Ec := fresh in let Ed := fresh in
          destruct (add_task_locks x) as (Ea & Eb & Ec & Ed); constructor; simpl; rewrite ?Ea, ?Eb, ?Ec, ?Ed;
@@ -112,13 +111,12 @@ Lemma winv1_notif : forall s j, WInv1 s j WNotif.
 Proof. intros. unfold WInv1; simpl; repeat split; intros; discriminate. Qed.
 
 Lemma inv1_step_w : forall c s i ch s' l,
-  Inv1 s -> step_w c s i ch = Some (s', l) -> taint s' = false -> Inv1 s'.
+  Inv1 s -> step_w c s i ch = Some (s', l) -> Inv1 s'.
 Proof.
-  intros c s i ch s' l [Ho Hr Hw He] H Ht. unfold step_w in H.
+  intros c s i ch s' l [Ho Hr Hw He] H. unfold step_w in H.
   destruct (getw s i) as [pc|] eqn:Hg; [|discriminate]. unfold getw in Hg.
   pose proof (Hw _ _ Hg) as Hi. unfold WInv1 in Hi.
   step_cases H; free_hyps; simpl in Hi; destruct Hi as (Hio & Hir & Hisc).
-  all: simpl in Ht; try discriminate Ht.
   all: unfold setw, hw_exit in *.
   all: repeat match goal with |- context [if ?b then _ else _] => destruct b eqn:? end.
   all: repeat match goal with |- context [match ?b with SWr _ => _ | SEnd => _ end] => destruct b eqn:? end.
@@ -138,9 +136,9 @@ Proof.
 Qed.
 
 Lemma inv1_step : forall c s ch s' l,
-  Inv1 s -> step c s ch = Some (s', l) -> taint s' = false -> Inv1 s'.
+  Inv1 s -> step c s ch = Some (s', l) -> Inv1 s'.
 Proof.
-  intros c s ch s' l HI H Ht. unfold step in H. destruct ch;
+  intros c s ch s' l HI H. unfold step in H. destruct ch;
     try (eapply inv1_step_io; eauto; fail); try (eapply inv1_step_w; eauto; fail).
   - destruct (gone s); [discriminate|]. inversion H; subst. destruct HI. constructor; simpl; auto.
   - destruct (gone s); [discriminate|]. inversion H; subst. destruct HI. constructor; simpl; auto.
